@@ -127,6 +127,7 @@ type c03ShardResult struct {
 	Capped    bool
 	Findings  []report.Violation
 	Errors    []string
+	Sample    map[string]interface{}
 }
 
 func c03RunScenario(sc c03Scenario, res *c03ShardResult, budget int64) {
@@ -216,6 +217,14 @@ func c03RunScenario(sc c03Scenario, res *c03ShardResult, budget int64) {
 	if ex.Capped {
 		res.Capped = true
 	}
+	if res.Sample == nil && sc.Fail >= 0 && len(sc.Names) >= 2 {
+		var outs []string
+		for o := range ex.Outcomes {
+			outs = append(outs, o)
+		}
+		res.Sample = map[string]interface{}{"tree_built_by": cfg.DescribeHist(sc.Hist), "nodes_written_by_MakeRoot": sc.Names, "failing_write": sc.Names[sc.Fail], "preemption_bound": sc.Bound,
+			"schedules_explored": ex.Schedules, "one_of_them": ex.Sample, "observed_outcomes": outs}
+	}
 	if ex.Divergence != "" {
 		res.Errors = append(res.Errors, fmt.Sprintf("replay divergence in %v fail=%d: %s", cfg.DescribeHist(sc.Hist), sc.Fail, ex.Divergence))
 	}
@@ -296,6 +305,9 @@ func c03Schedules(run *report.Run, acc *pairAcc) {
 		}
 		for _, v := range r.Findings {
 			run.Add(v)
+		}
+		if r.Sample != nil && len(run.Samples) < 2 {
+			run.AddSample(r.Sample)
 		}
 	}
 	run.States += int64(scen)
